@@ -213,7 +213,7 @@ public:
 	{
 		if(event != io_events::in && event !=io_events::out)
 			throw booster::invalid_argument("Invalid argument to set_io_event");
-		io_event_setter setter = { fd,event,h,this };
+		io_event_setter setter = { fd,event,h,this,false };
 		set_event(setter);
 	}
 
@@ -221,7 +221,7 @@ public:
 	{
 		if(fd==invalid_socket)
 			return;
-		io_event_canceler canceler = {fd,this};
+		io_event_canceler canceler = {fd,this,false};
 		set_event(canceler);
 	}
 
@@ -243,6 +243,7 @@ public:
 	void reset()
 	{
 		dispatch_queue_.clear();
+		queued_requests_ = 0;
 		map_.clear();
 		stop_ = false;
 		reactor_.reset();
@@ -259,7 +260,8 @@ public:
 	event_loop_impl(int type) :
 		reactor_type_(type),
 		stop_(false),
-		polling_(false)
+		polling_(false),
+		queued_requests_(0)
 	{
 	}
 	void post(handler const &h)
@@ -399,6 +401,8 @@ private:
 	socket_map<io_data> map_;
 	// events dispatch queue
 	std::deque<completion_handler> dispatch_queue_;
+	// set_io_event/cancel_io_events requests queued and not executed yet
+	int queued_requests_;
 
 	void closesocket(native_type fd)
 	{
@@ -417,9 +421,10 @@ private:
 	struct io_event_canceler {
 		native_type fd;
 		event_loop_impl *self_;
+		bool queued_;
 		bool cancelation_is_needed_with_data_mutex_locked()
 		{
-			if(!self_->dispatch_queue_.empty())
+			if(!self_->dispatch_queue_.empty() || self_->queued_requests_ > 0)
 				return true;
 			io_data &cont=self_->map_[fd];
 			if(cont.current_event == 0 && !cont.readable && !cont.writeable) {
@@ -431,6 +436,8 @@ private:
 		void operator()() const
 		{
 			lock_guard l(self_->data_mutex_);
+			if(queued_)
+				self_->queued_requests_--;
 			
 			io_data &cont=self_->map_[fd];
 			cont.current_event = 0;
@@ -454,9 +461,12 @@ private:
 		int event;
 		event_handler h;
 		event_loop_impl *self_;
+		bool queued_;
 		void operator()()
 		{
 			lock_guard l(self_->data_mutex_);
+			if(queued_)
+				self_->queued_requests_--;
 			
 			if(!self_->map_.is_valid(fd))
 			{
@@ -525,8 +535,11 @@ private:
 	void set_event(Functor &f)
 	{
 		lock_guard l(data_mutex_);
-		// never overtake requests that are still waiting in the queue
-		if(polling_ || !reactor_.get() || !dispatch_queue_.empty()) {
+		// never overtake requests that are still waiting in the queue or
+		// that the loop has taken from it and not executed yet
+		if(polling_ || !reactor_.get() || !dispatch_queue_.empty() || queued_requests_ > 0) {
+			f.queued_ = true;
+			queued_requests_++;
 			dispatch_queue_.push_back(completion_handler(f));
 			if(reactor_.get())
 				wake();
@@ -540,7 +553,9 @@ private:
 		lock_guard l(data_mutex_);
 		if(!f.cancelation_is_needed_with_data_mutex_locked())
 			return;
-		if(polling_ || !reactor_.get() || !dispatch_queue_.empty()) {
+		if(polling_ || !reactor_.get() || !dispatch_queue_.empty() || queued_requests_ > 0) {
+			f.queued_ = true;
+			queued_requests_++;
 			dispatch_queue_.push_back(completion_handler(f));
 			if(reactor_.get())
 				wake();
